@@ -3,7 +3,7 @@
 Slice widths are obtained by calling the package's own scalar mean-occupation functions one host at a time (as the
 property words it); everything built on top (stacking LRG->ELG->QSO, incompleteness, multiplicity/weight, rank decorator,
 assembly bias, ELG conformity through the particle's host, velocity bias, RSD/wrap) is written here from the statement.
-Hosts whose random lies within EDGE_TOL (relative) of a slice edge are optional: either outcome is accepted.
+Hosts whose random lies within EDGE_TOL (relative) of a slice edge are optional: every positive-width slice within the tolerance is accepted.
 """
 import numpy as np
 
@@ -144,7 +144,12 @@ def satellite_markers(pd_, tracers, j, host_code, enable_ranks):
 
 
 def codes_for(r, markers):
-    """admissible keep codes {0,1,2,3} for random r given cumulative edges (ties within EDGE_TOL are two-sided)"""
+    """admissible keep codes {0,1,2,3} for random r given cumulative edges.
+
+    Code k+1 owns the slice (markers[k-1], markers[k]]; code 0 everything above the last edge.  The compiled code evaluates the edges
+    with its own rounding, so every slice of positive width that comes within EDGE_TOL of r is admissible (a tie is two-sided, and a
+    slice narrower than the tolerance right next to r - e.g. a 1e-14 wide QSO slice above the ELG edge r sits on - can be the one the
+    compiled comparison selects)."""
 
     def code(x):
         for k, m in enumerate(markers):
@@ -153,11 +158,14 @@ def codes_for(r, markers):
         return 0
 
     out = {code(r)}
-    for m in markers:
-        tol = EDGE_TOL * max(1.0, abs(m))
-        if abs(r - m) <= tol:
-            out.add(code(m - 2 * tol))
-            out.add(code(m + 2 * tol))
+    prev, tolp = -np.inf, 0.0
+    for k, m in enumerate(markers):
+        tolm = EDGE_TOL * max(1.0, abs(m))
+        if m > prev and r > prev - tolp and r <= m + tolm:
+            out.add(k + 1)
+        prev, tolp = m, tolm
+    if r > prev - tolp:
+        out.add(0)
     return out
 
 
